@@ -4,8 +4,11 @@
    Model (M.Timer): a flat machine decorated with Timeout (threads) or AsyncTimeout (asyncio), any
    states / timeouts / callback lists / transitions (reflexive, internal, failing conditions), any number
    of models, queued or not; on_timeout callbacks may trigger events (on the timed-out or on another
-   model) and may raise.  A history is any list of `HEvent model event | HAdvance dt` under an integer
-   clock.  The timer objects, the runner dictionary state -> id(model) -> timer, start / cancel /
+   model) and may raise.  A history is any list of `HEvent model event | HAdvance dt | HSetTimeout state v`
+   under an integer clock; HSetTimeout is the
+   reconfiguration `machine.get_state(state).timeout = v` at run time (v = 0 switches the timeout off): the
+   attribute is read when a state is ENTERED (a timer that is running keeps its deadline), and exit
+   cancels the model's timer whatever the attribute says by then.  The timer objects, the runner dictionary state -> id(model) -> timer, start / cancel /
    is_alive and the overwrite of the runner entry are modelled as the code has them.
    PARTIAL: that threading.Timer / asyncio.sleep call back at the deadline is ASSUMED — it is the
    definition of [tick] (timers due at an instant run at that instant, in creation order, before an
@@ -36,10 +39,12 @@ Import ListNotations.
      outstanding timeout with deadline <= t: every timeout that came due while the model stayed has
      fired — at least once;
    - internal transitions produce no marker, so they neither restart nor stop a period; the bookkeeping
-     is per model, so timers of different models do not interact. *)
+     is per model, so timers of different models do not interact;
+   - timeout(s) is the value of the attribute when s is entered (TSetTimeout markers): reassigning it
+     neither moves nor protects the timeout of a stay that is under way. *)
 Theorem C17_once_on_time : forall (c : tcfg) (nm : nat) (s0 : tstate) (h : list top),
   guard_C17 c = true ->
-  spec_C17 c nm s0 (run_trace c (init_world s0) h) (w_clock (run_world c (init_world s0) h)) = true.
+  spec_C17 c nm s0 (run_trace c (init_world c s0) h) (w_clock (run_world c (init_world c s0) h)) = true.
 Proof. exact timed_spec. Qed.
 Print Assumptions C17_once_on_time.
 
@@ -63,9 +68,9 @@ Definition ex_markers : list titem :=
    TFired 1 0 4; TExited 1 0 4; TEntered 1 1 4; TExited 1 1 4; TEntered 1 2 4].
 Example C17_nonvacuous :
   guard_C17 (ex_cfg false) = true /\ guard_C17 (ex_cfg true) = true /\
-  markers (run_trace (ex_cfg false) (init_world 2) ex_hist) = ex_markers /\
-  markers (run_trace (ex_cfg true) (init_world 2) ex_hist) = ex_markers /\
-  spec_C17 (ex_cfg false) 2 2 (run_trace (ex_cfg false) (init_world 2) ex_hist) 8 = true /\
+  markers (run_trace (ex_cfg false) (init_world (ex_cfg false) 2) ex_hist) = ex_markers /\
+  markers (run_trace (ex_cfg true) (init_world (ex_cfg true) 2) ex_hist) = ex_markers /\
+  spec_C17 (ex_cfg false) 2 2 (run_trace (ex_cfg false) (init_world (ex_cfg false) 2) ex_hist) 8 = true /\
   spec_C17 (ex_cfg false) 2 2 [TExited 0 2 0; TEntered 0 0 0] 8 = false /\                         (* never fired *)
   spec_C17 (ex_cfg false) 2 2 [TExited 0 2 0; TEntered 0 0 0; TFired 0 0 4] 8 = false /\           (* late *)
   spec_C17 (ex_cfg false) 2 2 [TExited 0 2 0; TEntered 0 0 0; TFired 0 0 3; TFired 0 0 3] 8 = false /\  (* twice *)
@@ -78,6 +83,28 @@ Example C17_nonvacuous :
 Proof. vm_compute. repeat split. Qed.
 Print Assumptions C17_nonvacuous.
 
+(* Reconfiguration at run time: model 0 enters state 0 (timeout 3) at 0; at 1 the timeout of state 0 is set
+   to 0; at 2 the model leaves (internal event first: no effect) — the running timer is cancelled by that
+   exit and nothing fires at 3; model 1 entered state 0 at 1 BEFORE the reassignment and stays: its timer
+   keeps its deadline 4; entering state 0 at 5 with timeout 0 starts none; after setting it to 2 an entry at
+   6 fires at 8.  The checker rejects a firing at 3 for the stay that ended at 2. *)
+Definition rc_cfg : tcfg :=
+  mkTC false false [(0, mkTS 3 [mkOcb 1 None false] [] []); (1, ts_default)]
+       [mkTT 0 1 (Some 0) true; mkTT 1 0 (Some 1) true; mkTT 2 0 None true] true [].
+Definition rc_hist : list top :=
+  [HEvent 0 0; HAdvance 1; HEvent 1 0; HSetTimeout 0 0; HAdvance 1; HEvent 0 2; HEvent 0 1; HAdvance 3;
+   HEvent 0 0; HSetTimeout 0 2; HAdvance 1; HEvent 0 1; HEvent 0 0; HAdvance 3].
+Example C17_reconfigured :
+  filter (fun it => match it with TFired _ _ _ | TSetTimeout _ _ _ => true | _ => false end)
+         (run_trace rc_cfg (init_world rc_cfg 1) rc_hist) =
+    [TSetTimeout 0 0 1; TFired 1 0 4; TSetTimeout 0 2 5; TFired 0 0 8] /\
+  spec_C17 rc_cfg 2 1 (run_trace rc_cfg (init_world rc_cfg 1) rc_hist) 9 = true /\
+  spec_C17 rc_cfg 2 1 [TExited 0 1 0; TEntered 0 0 0; TSetTimeout 0 0 1; TExited 0 0 2; TEntered 0 1 2;
+                       TFired 0 0 3] 3 = false /\
+  spec_C17 rc_cfg 2 1 [TExited 0 1 0; TEntered 0 0 0; TSetTimeout 0 0 1] 3 = false.   (* a running timer is not dropped *)
+Proof. vm_compute. repeat split. Qed.
+Print Assumptions C17_reconfigured.
+
 (* Outside the guard the statement is false of the model: an unqueued on_exit callback that triggers a
    state-changing event recurses until the fuel is gone (Python: RecursionError — there is no run of the
    library to compare with); every unwinding level then enters the destination again without the exit
@@ -87,7 +114,7 @@ Definition bad_cfg : tcfg :=
        [mkTT 0 0 (Some 1) true] true [].
 Theorem C17_guard_needed : exists (c : tcfg) (h : list top),
   guard_C17 c = false /\
-  spec_C17 c 1 0 (run_trace c (init_world 0) h) (w_clock (run_world c (init_world 0) h)) = false.
+  spec_C17 c 1 0 (run_trace c (init_world c 0) h) (w_clock (run_world c (init_world c 0) h)) = false.
 Proof. exists bad_cfg, [HEvent 0 0; HAdvance 3]. vm_compute. split; reflexivity. Qed.
 Print Assumptions C17_guard_needed.
 
@@ -96,13 +123,14 @@ Print Assumptions C17_guard_needed.
    one per model, none for a state the model has left, and the runner entry is always the latest timer),
    and its deadline lies in the future. *)
 Theorem C17_invariant : forall (c : tcfg) (s0 : tstate) (h : list top),
-  guard_C17 c = true -> Inv true (run_world c (init_world s0) h).
+  guard_C17 c = true -> Inv true (run_world c (init_world c s0) h).
 Proof. exact inv_reachable. Qed.
 Print Assumptions C17_invariant.
 
 (* The timer bookkeeping of ONE state change, [switch] = Timeout.exit's cancel, Machine.set_state,
    Timeout.enter's start — what Transition._change_state does between the on_exit and the on_enter
-   callbacks ([change_state] in Timer.v) — from any world satisfying the invariant:
+   callbacks ([change_state] in Timer.v) — from any world satisfying the invariant, i.e. also after any
+   reassignment of timeout attributes ([w_tout w] is the CURRENT table; [cancel_slot] never consults it):
 
    Never if left: the only timer that can be pending for m afterwards is the one created by this very
    entry (position = number of timers that existed before): the timer of the state that was left is not
@@ -112,14 +140,14 @@ Theorem C17_never_if_left :
   forall (b : bool) (c : tcfg) (w : world) (m : tmodel) (d : tstate),
   Inv b w ->
   forall j tm, pend (snd (switch c w m d)) j tm -> tm_model tm = m ->
-    j = length (w_timers w) /\ tm_state tm = d /\ tm_deadline tm = w_clock w + timeout_of c d.
+    j = length (w_timers w) /\ tm_state tm = d /\ tm_deadline tm = w_clock w + w_tout w d.
 Proof. exact never_if_left_local. Qed.
 Print Assumptions C17_never_if_left.
 
 (* Restart: whatever deadline was outstanding for m before, after the change into d (also d = the current
    state) the outstanding deadline of m is now + timeout(d) (none if d has no timeout) ... *)
 Theorem C17_restart : forall (b : bool) (c : tcfg) (w : world) (m : tmodel) (d : tstate),
-  Inv b w -> armed (snd (switch c w m d)) m = period c d (w_clock w).
+  Inv b w -> armed (snd (switch c w m d)) m = period (w_tout w) d (w_clock w).
 Proof. exact restart_local. Qed.
 Print Assumptions C17_restart.
 
